@@ -5,6 +5,9 @@
 package parser
 
 /*@
+// every function of this package without a contract is swept for implicit panics that its own guards rule out
+sweep C03
+
 // tokens are never rewritten after scanning / alias declaration
 immutable token.Token ddptypes.ParameterType []token.Token
 
